@@ -308,6 +308,10 @@ def check_encode_threads(case, ctx):
             _judge_sentence("C04/threads", "with %d threads encoding at once, mnemonic_from_entropy(%s)" % (len(jobs), e.hex()), s, e)
 
 
+def _cold_build(e):
+    return (["bip39", "mnemonic_from_entropy", [e.hex()]], R.encode(e), "mnemonic_from_entropy(%s)" % e.hex())
+
+
 def clauses():
     return [
         Clause("encode", check_encode,
@@ -356,4 +360,5 @@ def clauses():
                "the embedded list: 2048 entries, SHA-256 of english.txt and bitcoinj digest both match, sorted, "
                "unique 4-letter prefixes", enum=lambda tier: [{"list": "english"}], exhaustive=True,
                enum_desc="the 2048 list entries", shards={"quick": 1, "thorough": 1}),
+        __import__("vlib.cold", fromlist=["x"]).cold_clause("C04", entropies(), _cold_build, "entropy -> sentence (word list loaded on first use)"),
     ]
